@@ -648,7 +648,7 @@ pub fn add_unrequested_soft_packages(rng: &mut Rng, w: &mut World, p: &mut Probl
 /// A "forest": k small independent worlds over disjoint id ranges merged into one, the root problem being the
 /// concatenation of their root problems. One solve then runs through many decisions, conflicts, learnt clauses
 /// and restarts (long trails; size boundaries that small universes never reach).
-pub fn gen_forest(rng: &mut Rng, p: &GenParams, k: usize, sat_bias: bool) -> (World, ProblemSpec) {
+pub fn gen_forest(rng: &mut Rng, p: &GenParams, k: usize, sat_bias: bool, gadgets: bool) -> (World, ProblemSpec) {
     let mut w = World::default();
     let mut problem = ProblemSpec::default();
     let mut small = p.clone();
@@ -661,7 +661,11 @@ pub fn gen_forest(rng: &mut Rng, p: &GenParams, k: usize, sat_bias: bool) -> (Wo
     let mut attempts = 0;
     while made < k && attempts < 6 * k {
         attempts += 1;
-        let (mut sw, mut sp) = gen_world(rng, &small, 1);
+        let (mut sw, mut sp) = if gadgets && rng.chance(1, 2) {
+            conflict_gadget(rng)
+        } else {
+            gen_world(rng, &small, 1)
+        };
         // mostly satisfiable components (an unsatisfiable one ends the whole solve at its first conflict)
         if sat_bias {
             let hard = ProblemSpec {
@@ -708,4 +712,69 @@ pub fn gen_forest(rng: &mut Rng, p: &GenParams, k: usize, sat_bias: bool) -> (Wo
         problem.constraints.extend(sp.constraints);
     }
     (w, problem)
+}
+
+
+/// A small satisfiable component that costs the solver at least one conflict (so that forests reach long series
+/// of learnt clauses): the preferred candidate of the required package runs into a contradiction that is only
+/// discovered after further decisions.
+pub fn conflict_gadget(rng: &mut Rng) -> (World, Vec<ProblemSpec>) {
+    let mut w = World::default();
+    let mut next_s = 0u32;
+    let mut next_vs = 0u32;
+    let mut pkg = |w: &mut World, name: u32, n: usize| -> Vec<u32> {
+        let c: Vec<u32> = (next_s..next_s + n as u32).collect();
+        next_s += n as u32;
+        for x in &c {
+            w.solvables.insert(*x, Solvable { name, deps: Deps::Known { requirements: vec![], constrains: vec![] } });
+        }
+        w.packages.insert(name, Package { candidates: c.clone(), rank: c.clone(), favored: None, locked: None, excluded: vec![], hint: Hint::None, missing: false });
+        c
+    };
+    let mut vs = |w: &mut World, name: u32, mut m: Vec<u32>| -> u32 {
+        m.sort();
+        let id = next_vs;
+        next_vs += 1;
+        w.version_sets.insert(id, VersionSet { name, matches: m });
+        id
+    };
+    let set = |w: &mut World, s: u32, reqs: Vec<u32>, cons: Vec<u32>| {
+        w.solvables.get_mut(&s).unwrap().deps = Deps::Known { requirements: reqs.into_iter().map(Req::Single).collect(), constrains: cons };
+    };
+    let g = pkg(&mut w, 0, rng.range(2, 3));
+    let root_vs = vs(&mut w, 0, g.clone());
+    match rng.below(3) {
+        0 => {
+            // g1 -> x, y ; x1 constrains y away
+            let x = pkg(&mut w, 1, 1);
+            let y = pkg(&mut w, 2, rng.range(1, 2));
+            let xa = vs(&mut w, 1, x.clone());
+            let ya = vs(&mut w, 2, y.clone());
+            let none_y = vs(&mut w, 2, vec![]);
+            set(&mut w, g[0], vec![xa, ya], vec![]);
+            set(&mut w, x[0], vec![], vec![none_y]);
+        }
+        1 => {
+            // diamond: g1 -> a (a1 preferred), b ; b1 -> exactly a2, a1 fine otherwise
+            let a = pkg(&mut w, 1, 2);
+            let b = pkg(&mut w, 2, 1);
+            let aa = vs(&mut w, 1, a.clone());
+            let ba = vs(&mut w, 2, b.clone());
+            let a2 = vs(&mut w, 1, vec![a[1]]);
+            set(&mut w, g[0], vec![aa, ba], vec![]);
+            set(&mut w, b[0], vec![a2], vec![]);
+        }
+        _ => {
+            // chain: g1 -> c ; c1 -> d ; d1 constrains g to not-g1 ; c2 free
+            let c = pkg(&mut w, 1, 2);
+            let d = pkg(&mut w, 2, 1);
+            let ca = vs(&mut w, 1, c.clone());
+            let da = vs(&mut w, 2, d.clone());
+            let not_g1 = vs(&mut w, 0, g[1..].to_vec());
+            set(&mut w, g[0], vec![ca], vec![]);
+            set(&mut w, c[0], vec![da], vec![]);
+            set(&mut w, d[0], vec![], vec![not_g1]);
+        }
+    }
+    (w, vec![ProblemSpec { requirements: vec![Req::Single(root_vs)], constraints: vec![], soft: vec![] }])
 }
